@@ -201,6 +201,58 @@ def run(run, replay=None):
     can = run.tolerant(_mk_canaries)
     run.judge('Trace_Reader', cases + can, None, canary_ids=[c['id'] for c in can],
               describe=lambda c: {'padding': c['padding'], 'block_size': c['block_size'], 'end': c['end']})
+    # ---- the stream protocol: read / seek / yield logs of the real reader replayed through ReaderIO.tla ----
+    run.mc('MC_ReaderIO', 'SPECIFICATION Spec\nCONSTANTS MaxLen = %d MaxChunk = %d\nWant <- ToyWant\nINVARIANT FramesOfStream\n'
+                          'INVARIANT Sequential\nINVARIANT Lazy\nCHECK_DEADLOCK FALSE\n' % ((5, 4) if quick else (6, 7)),
+           note='whole-file stream protocol: all streams x a fresh block size at every read; frames are a function of the stream')
+    run.mc('MC_ReaderIO', 'SPECIFICATION FairSpec\nCONSTANTS MaxLen = 4 MaxChunk = 3\nWant <- ToyWant\nPROPERTY Terminates\n'
+                          'CHECK_DEADLOCK FALSE\n', note='stream protocol: every run ends (weak fairness)')
+    run.mc('MC_ReaderIO', 'SPECIFICATION BadSpec\nCONSTANTS MaxLen = 4 MaxChunk = 3\nWant <- ToyWant\nINVARIANT FramesOfStream\n'
+                          'CHECK_DEADLOCK FALSE\n', expect='violation',
+           note='sanity: a reader that does not seek back after the delimiter violates FramesOfStream')
+    io = []
+    iosizes = [1, 2, 7, 31, 96, 97, 10 ** 6] if quick else [1, 2, 3, 5, 7, 16, 31, 64, 95, 96, 97, 128, 193, 10 ** 6]
+    iofiles = list(files)
+    for data in files[:nsafe]:
+        for _k in range(2 if quick else 6):          # damaged files: the log must stay legal up to the error
+            cut = rng.randrange(1, len(data))
+            iofiles.append(data[:cut] if rng.random() < 0.5 else data[:cut] + b'#' + data[cut:])
+    for data in iofiles:
+        for bs in iosizes:
+            io.append(rdriver.io_trace('io-%d' % len(io), data, _factory(bs)))
+
+    def _io_canaries():
+        out = []
+        pool = [t for t in io if t['end'] == 'done' and any(e['op'] == 'seek' for e in t['ev'])]
+        for k, t in enumerate(rng.sample(pool, min(10, len(pool)))):
+            z = copy.deepcopy(t)
+            z['canary_of'] = z['id']
+            z['id'] = 'io-canary-%d' % k
+            seeks = [n for n, e in enumerate(z['ev']) if e['op'] == 'seek' and n + 2 < len(z['ev'])]
+            yields = [n for n, e in enumerate(z['ev']) if e['op'] == 'yield' and n + 1 < len(z['ev'])]
+            reads = [n for n, e in enumerate(z['ev']) if e['op'] == 'read' and n > 0 and z['ev'][n - 1]['op'] == 'yield'
+                     and e['n'] != iosizes[0] and e['n'] not in iosizes]
+            kind = k % 4
+            if kind == 0 and seeks:
+                z['ev'][rng.choice(seeks)]['pos'] += 1          # sought back one byte short
+            elif kind == 1 and seeks:
+                del z['ev'][rng.choice(seeks)]                   # no seek back at all
+            elif kind == 2 and yields:
+                n = rng.choice(yields)
+                z['ev'][n], z['ev'][n + 1] = z['ev'][n + 1], z['ev'][n]   # read on before yielding
+            elif reads:
+                z['ev'][rng.choice(reads)]['n'] += 1             # content read longer than declared
+            else:
+                z['ev'][seeks[0]]['pos'] -= 1
+            out.append(z)
+        return out
+    iocan = run.tolerant(_io_canaries)
+    run.judge('Trace_ReaderIO', io + iocan, None, canary_ids=[c['id'] for c in iocan], with_tables=False,
+              cfg_extra='INVARIANT TFramesOfStream\nINVARIANT TSequential\nINVARIANT TLazy\n',
+              advisory='stream_protocol_mismatches(model ReaderIO.tla no longer describes the reader; not a violation)',
+              describe=lambda c: {'end': c['end'], 'operations': len(c['ev'])})
+    run.notes['stream_protocol_logs'] = len(io)
+    run.notes['stream_protocol_operations'] = sum(len(t['ev']) for t in io)
     run.notes.update({'files': len(files), 'reads': nreads, 'file_padding_pairs_with_block_size_dependent_result': disagreeing})
     run.notes['block_size_varied'] = block_size_hook_available()
     run.assumptions += ['block size is varied through a subclass that overrides the default argument of _read_until '
